@@ -288,12 +288,13 @@ func code(d acl.EnforcementDecision) byte {
 	return '9'
 }
 
-// observe: decisions of the compiled authorizer, of [it; DenyAll] and of [it; AllowAll]
+// observe: decisions of the compiled authorizer, of [it; DenyAll], [it; AllowAll] and [it; ManageAll]
 func observe(a acl.Authorizer, qs []query) string {
 	chains := []acl.Authorizer{a,
 		acl.NewChainedAuthorizer([]acl.Authorizer{a, acl.DenyAll()}),
-		acl.NewChainedAuthorizer([]acl.Authorizer{a, acl.AllowAll()})}
-	out := make([]byte, 0, 3*len(qs))
+		acl.NewChainedAuthorizer([]acl.Authorizer{a, acl.AllowAll()}),
+		acl.NewChainedAuthorizer([]acl.Authorizer{a, acl.ManageAll()})}
+	out := make([]byte, 0, 4*len(qs))
 	for _, c := range chains {
 		for _, q := range qs {
 			out = append(out, code(q.m.call(c, q.name)))
@@ -333,6 +334,19 @@ func tokenPolicies(c *Case, t *Tok) structs.ACLPolicies {
 	var ps structs.ACLPolicies
 	for _, i := range t.Idx {
 		ps = append(ps, aclPolicy(&c.Pool[i]))
+	}
+	return ps
+}
+
+// the token's policies as the store hands them out: ONE object per policy version, shared by
+// every token that links it
+func sharedPolicies(c *Case, t *Tok, objs map[int]*structs.ACLPolicy) structs.ACLPolicies {
+	var ps structs.ACLPolicies
+	for _, i := range t.Idx {
+		if objs[i] == nil {
+			objs[i] = aclPolicy(&c.Pool[i])
+		}
+		ps = append(ps, objs[i])
 	}
 	return ps
 }
@@ -622,24 +636,28 @@ func (r *ref) policy(m string, n string) int {
 	panic("unknown method " + m)
 }
 
-func static(m string, allow bool) int {
+// the static authorizers: chain 1 DenyAll, 2 AllowAll, 3 ManageAll
+func static(m string, chain int) int {
 	switch m {
 	case "ACLRead", "ACLWrite", "Snapshot":
+		if chain == 3 {
+			return dAllow
+		}
 		return dDeny
 	}
-	if allow {
+	if chain >= 2 {
 		return dAllow
 	}
 	return dDeny
 }
 
 func (r *ref) observe(qs []query) string {
-	out := make([]byte, 0, 3*len(qs))
-	for chain := 0; chain < 3; chain++ {
+	out := make([]byte, 0, 4*len(qs))
+	for chain := 0; chain < 4; chain++ {
 		for _, q := range qs {
 			d := r.policy(q.m.name, q.name)
 			if chain > 0 && d == dDefault {
-				d = static(q.m.name, chain == 2)
+				d = static(q.m.name, chain)
 			}
 			out = append(out, byte('0'+d))
 		}
@@ -770,7 +788,7 @@ func firstDiff(a, b string) int {
 
 func describe(qs []query, i int) (string, string) {
 	q := qs[i%len(qs)]
-	chain := []string{"", "+DenyAll", "+AllowAll"}[i/len(qs)]
+	chain := []string{"", "+DenyAll", "+AllowAll", "+ManageAll"}[i/len(qs)]
 	return q.m.name + chain, q.name
 }
 
@@ -832,9 +850,10 @@ func run(c *Case) {
 		}
 	}
 	parsedSeen := map[string]string{} // content hash -> hcl
+	objs := map[int]*structs.ACLPolicy{}
 	for ti := range c.Toks {
 		t := &c.Toks[ti]
-		ps := tokenPolicies(c, t)
+		ps := sharedPolicies(c, t, objs)
 		authz, err := ps.Compile(cache, &acl.Config{})
 		t.Err = err != nil
 		t.Expect = ""
